@@ -212,6 +212,14 @@ func buildSerState(rng *rand.Rand, kind string, allowEmpty bool, forceShape ...i
 			case "hnsw":
 				x, err = mk(s.dim, metric, 0, s.hM+1, s.hEf, s.hEf, 0, 0)
 				add("M", x, err)
+				// a receiver built with "0 = use the default" for all three parameters HAS parameters (16 / 200 / 200): a stream
+				// written with anything else does not fit it
+				if dm, dc, ds := comet.DefaultHNSWConfig(); s.hM != dm || s.hEf != dc || s.hEf != ds {
+					x, err = mk(s.dim, metric, 0, 0, 0, 0, 0, 0)
+					add("all-parameters-defaulted-by-zero", x, err)
+					x, err = mk(s.dim, metric, 0, -1, -1, -1, 0, 0)
+					add("all-parameters-defaulted-by-negative", x, err)
+				}
 				x, err = mk(s.dim, metric, 0, s.hM, s.hEf+1, s.hEf, 0, 0)
 				add("efConstruction", x, err)
 				x, err = mk(s.dim, metric, 0, s.hM, s.hEf, s.hEf+1, 0, 0)
